@@ -143,6 +143,12 @@ class _Limit(object):
     @staticmethod
     def _get_arg_min(errors):
         shape = errors.shape
+        all_nan = np.all(np.isnan(errors), axis=0)
+        if np.any(all_nan) and not np.all(all_nan):
+            # a point where every estimate is nan must not spoil the selection at the other points
+            warnings.warn('All-NaN slice encountered')
+            errors = np.where(all_nan, np.inf, errors)
+            errors[0, all_nan] = 0.0  # first row, as when every point is nan
         try:
             arg_mins = np.nanargmin(errors, axis=0)
             min_errors = np.nanmin(errors, axis=0)
